@@ -99,7 +99,9 @@ def check_sig(ctx, case, enum=False, cache=None):
             at = case.get("at", True)
             a = sk.sign_digest_deterministic(digest, hashfunc=hf, sigencode=SU.rs_tuple, extra_entropy=extra,
                                              allow_truncate=at)
-            b = sk.sign_digest_deterministic(bytearray(digest), hashfunc=hf, sigencode=SU.rs_tuple,
+            from .c01 import as_type, PAYLOAD_TYPES
+            pt = PAYLOAD_TYPES[(dd + len(digest) + len(extra)) % len(PAYLOAD_TYPES)]
+            b = sk.sign_digest_deterministic(as_type(digest, pt), hashfunc=hf, sigencode=SU.rs_tuple,
                                              extra_entropy=memoryview(extra), allow_truncate=at)
     except RSZeroError as e:
         ctx.fail("sign_deterministic/RSZeroError-escaped", case, repr(e))
